@@ -163,6 +163,26 @@ REGISTRY = {
                 "Non-trivial: at least one file was replaced.",
         "floor": floors(("files-replaced", 500), ("bystanders-verified", 1000), ("failing-series-(files-resaved-after-rollback)", 50)),
     },
+    "C16": {
+        "level_text": "real pushes of series files in random accepted spellings, and of directed workspaces enumerating the 16 combinations of old/new name state; the resulting tree and .pc entries are compared with ground truth",
+        "level_note": "trusted: wsgen ground truth; strip levels >= path depth are not asserted (not defined by the statement)",
+        "technique": "runtime monitoring: ground-truth oracle over tree/.pc snapshots",
+        "parts": [K.cli_c16],
+        "rule": "(a) options: -pN / -p N / --strip=N / --strip N, -R / --reverse, any order, blanks and tabs, comment and blank lines between entries, over random series with strip 0..3 "
+                "and reversed patches; (b) names: a file patch with differing ---/+++ names, each name in state exists-on-disk / created-earlier-in-run / deleted-earlier-in-run / absent "
+                "(16 combinations) x strip 0..2 x single sequential / single parallel / split push. Non-trivial: non-default options, or differing names.",
+        "floor": floors(("options-runs", 500), ("names-runs", 500), ("reverse", 50), ("strip=0", 50), ("strip=2", 50), ("strip=3", 50)),
+    },
+    "C17": {
+        "level_text": "real pushes on workspaces with inconsistent quilt state, bad goal arguments or a missing/unreadable/unparseable patch file; exit status, message and a full snapshot (incl. inodes and mtimes) are checked",
+        "level_note": "trusted: snapshots; 'unreadable' is simulated by a directory in place of the patch file (the checks run as root)",
+        "technique": "runtime monitoring: refusal oracle (exit status, stderr, snapshot invariant)",
+        "parts": [K.cli_c17],
+        "rule": "applied-patches longer than series / with unknown names / reordered / edited / duplicated / garbage; goal = unknown name, already applied name (also when everything is applied), "
+                "a number too big to parse, a truncated name; a missing / directory / truncated / malformed / binary / nameless patch at a random position of the range with no failing patch before it; "
+                "huge parseable counts (2^64-1, 2^63, 2^32, 0) must behave like 'as many as there are'. threads 1/4, -q/default, prior applied state. All cases are refusal paths; distinct by (case, state, goal, configuration).",
+        "floor": floors(("refusals-verified", 1000), ("huge-counts-verified", 100), ("case:state:longer", 20), ("case:goal:applied-name-all-applied", 20), ("case:badpatch:missing", 20)),
+    },
     "C19": {
         "level_text": "real pushes under strace inside a sentinel directory with decoy files at the places escaping names point to; sentinel snapshot, syscall audit, exit status and clean-failure oracle",
         "level_note": "trusted: strace decoding; symlinks inside the tree are out of scope (the statement is about names)",
